@@ -68,7 +68,7 @@ def _next(seq, *default):
 
 
 _PURE_BUILTINS = {"tee": lambda x, n=2: tuple(list(x) for _ in range(n)), "zip_longest": _zip_longest, "next": _next, "enumerate": lambda *a: list(enumerate(*a)), "zip": lambda *a: list(zip(*a)), "range": lambda *a: list(range(*a)), "sorted": sorted, "reversed": lambda x: list(reversed(x)),
-                  "sum": sum, "any": any, "all": all, "bin": bin, "hex": hex, "oct": oct, "chr": chr, "ord": ord, "divmod": divmod, "pow": pow, "int": int, "float": float, "str": str, "len": len, "bool": bool, "min": min, "max": max, "abs": abs, "round": round, "list": list, "tuple": tuple, "bytes": bytes, "set": set, "dict": dict}
+                  "sum": sum, "any": any, "all": all, "bin": bin, "hex": hex, "oct": oct, "chr": chr, "ord": ord, "divmod": divmod, "pow": pow, "int": int, "float": float, "str": str, "len": len, "bool": bool, "min": min, "max": max, "abs": abs, "round": round, "list": list, "tuple": tuple, "bytes": bytes, "set": set, "dict": dict, "bytearray": bytearray}
 
 
 def _has_unknown(v, depth=0):
@@ -391,7 +391,7 @@ class Interp:
                 return Bound(recv.ci, e.attr)
         if self._mentions_obj(e, env):
             v = UNKNOWN
-        elif self.hook is not None and isinstance(e, (ast.List, ast.Tuple, ast.Dict, ast.Set, ast.ListComp, ast.GeneratorExp, ast.SetComp)) and any(isinstance(x, ast.Call) for x in ast.walk(e)):
+        elif self.hook is not None and isinstance(e, (ast.List, ast.Tuple, ast.Dict, ast.Set, ast.ListComp, ast.GeneratorExp, ast.SetComp, ast.DictComp)) and any(isinstance(x, ast.Call) for x in ast.walk(e)):
             v = UNKNOWN  # calls inside a display / comprehension are evaluated one by one so that the rule's witnesses see them
         else:
             v = self.ctx.folder.eval(e, self.module, env=env)
@@ -592,16 +592,19 @@ class Interp:
                     st_ = self.ev(e.slice.step, env, depth) if e.slice.step is not None else None
                     return base[lo:hi:st_]
                 return base[self.ev(e.slice, env, depth)]
-        if isinstance(e, (ast.ListComp, ast.GeneratorExp, ast.SetComp)):
+        if isinstance(e, (ast.ListComp, ast.GeneratorExp, ast.SetComp, ast.DictComp)):
             out = []
 
             def rec(gens, env_):
                 if not gens:
-                    out.append(self.ev(e.elt, env_, depth))
+                    if isinstance(e, ast.DictComp):
+                        out.append((self.ev(e.key, env_, depth), self.ev(e.value, env_, depth)))
+                    else:
+                        out.append(self.ev(e.elt, env_, depth))
                     return
                 g_ = gens[0]
                 seq = self.ev(g_.iter, env_, depth)
-                if isinstance(seq, dict):
+                if isinstance(seq, (dict, set, frozenset, type({}.items()), type({}.keys()), type({}.values()))):
                     seq = list(seq)
                 if not isinstance(seq, (list, tuple, str, bytes, range)) or len(seq) > 4096:
                     raise _Unknown("comprehension over a non-constant sequence")
@@ -612,6 +615,8 @@ class Interp:
                         rec(gens[1:], env2)
 
             rec(list(e.generators), env)
+            if isinstance(e, ast.DictComp):
+                return dict(out)
             return out if not isinstance(e, ast.SetComp) else set(out)
         if isinstance(e, ast.Call) and isinstance(e.func, ast.Attribute) and not e.keywords and e.func.attr in _PURE_METHODS:
             recv_ = None
@@ -794,7 +799,7 @@ class Interp:
                 self.block(st.body if t else st.orelse, env, depth)
             elif isinstance(st, ast.For):
                 seq = self.ev(st.iter, env, depth)
-                if isinstance(seq, dict):
+                if isinstance(seq, (dict, set, frozenset, type({}.items()), type({}.keys()), type({}.values()))):
                     seq = list(seq)
                 if not isinstance(seq, (list, tuple, str, bytes, range)) or len(seq) > 256:
                     raise _Unknown("loop over a non-constant or long sequence")
@@ -932,9 +937,16 @@ class Interp:
                     raise ValueError("wrong number of values to unpack")
                 for x, y in zip(t.elts, v):
                     self.store(x, y, env, depth)
-        elif isinstance(t, ast.Subscript) and isinstance(t.value, ast.Name) and t.value.id in env and isinstance(env[t.value.id], (dict, list)):
-            k = self.ev(t.slice, env, depth)
-            env[t.value.id][k] = v
+        elif isinstance(t, ast.Subscript) and isinstance(t.value, ast.Name) and t.value.id in env and isinstance(env[t.value.id], (dict, list, bytearray)):
+            if isinstance(t.slice, ast.Slice):
+                lo = self.ev(t.slice.lower, env, depth) if t.slice.lower is not None else None
+                hi = self.ev(t.slice.upper, env, depth) if t.slice.upper is not None else None
+                if t.slice.step is not None:
+                    raise _Unknown("extended slice store")
+                env[t.value.id][lo:hi] = v
+            else:
+                k = self.ev(t.slice, env, depth)
+                env[t.value.id][k] = v
         elif isinstance(t, ast.Attribute) and isinstance(t.value, ast.Name) and isinstance(env.get(t.value.id), Obj):
             env[t.value.id].__dict__[t.attr] = v
         elif isinstance(t, ast.Subscript):
